@@ -9,6 +9,9 @@ IDX = {}
 KANI_ONLY = {"c06_new_wiring", "c19_async_new_wiring", "c10_wait_barrier", "c10_wait_vs_clear", "c10_wait_inflight",
              "c13_tinylfu_new", "c07_add_rule_n2", "c07_add_rule_n3", "c17_add_metrics_n2", "c17_add_metrics_n3",
              "c19_async_client_remove_wiring", "c19_async_get_records",
+             # the "recorded toward popularity" assertion reads the recorder that replaces LFUPolicy::push
+             # (whose select! Kani cannot compile); natively there is no recorder to read
+             "c15_get_records",
              }
 
 
